@@ -24,10 +24,30 @@ class Die(BaseException):
 def reset() -> None:
     LOG.clear()
     ATTEMPTS.clear()
+    SUB_LOG.clear()
+    SUB_ATTEMPTS.clear()
     HOOKS.clear()
 
 
+SUB_LOG: list = []
+SUB_ATTEMPTS: dict = {}
+
+
 def wf_sub(x: int) -> int:
+    """The sub-task runs inside its parent's workflow, draws deterministic values itself and asks for one retry:
+    its second execution must see what its first one saw."""
+    from pynenc import context
+    from pynenc.exceptions import RetryError
+
+    app = context.get_current_app()
+    inv = context.get_dist_invocation_context(app.app_id)
+    inv_id = str(inv.invocation_id)
+    attempt = SUB_ATTEMPTS.get(inv_id, 0) + 1
+    SUB_ATTEMPTS[inv_id] = attempt
+    wf = inv.task.wf
+    SUB_LOG.append({"inv": inv_id, "attempt": attempt, "values": (("random", wf.random()), ("uuid", wf.uuid()))})
+    if attempt == 1:
+        raise RetryError("sub-task: once more")
     return x + 100
 
 
